@@ -1,8 +1,9 @@
 /-
-  Lemmas for C13, part 3: the extracted model contains the dependency closure of the focus with identical
-  contents, hence agrees with the original on it (after `build_code` on both).
+  Lemmas for C13, part 4: the extracted model contains the dependency closure of the focus with identical
+  contents and the defined names its formulas use, hence agrees with the original on the closure (after
+  `build_code` on both).
 -/
-import XlVerif.Lemmas.C13Extract
+import XlVerif.Lemmas.C13Worklist
 import XlVerif.Spec.C13
 namespace XlVerif.Lemmas.C13
 open XlVerif XlVerif.Model.Evaluator XlVerif.Model.C13 XlVerif.Spec.C13
@@ -84,44 +85,7 @@ theorem roots_subset_closureN (succ : α → List α) : ∀ (n : Nat) (s : List 
 
 end spec
 
-/-! ### hygiene of compiled workbooks -/
-
-structure WF (m : XModel) : Prop where
-  rangeNotCell : RangeNotCell m
-  nameNotCell : ∀ n, m.isName n = true → m.st.cell? n = none ∧ m.st.range? n = none
-  targetNotName : ∀ n t, assoc n m.st.names = some t → m.isName t = false
-  memberNotName : ∀ n rn, assoc n m.rnames = some rn → ∀ b ∈ rn.cells.flatten, m.isName b = false
-
-theorem assoc_mem {β} {k : Addr} {v : β} : ∀ {l : List (Addr × β)}, assoc k l = some v → (k, v) ∈ l
-  | [], h => by simp [assoc] at h
-  | (k', v') :: rest, h => by
-    by_cases hk : k = k'
-    · simp only [assoc, hk, if_true, Option.some.injEq] at h
-      subst h; subst hk; exact List.mem_cons_self
-    · simp only [assoc, hk, if_false] at h
-      exact List.mem_cons_of_mem _ (assoc_mem h)
-
-theorem wf_of_wfb {m : XModel} (h : wfb m = true) : WF m := by
-  simp only [wfb, Bool.and_eq_true, List.all_eq_true, Bool.not_eq_true'] at h
-  obtain ⟨⟨h1, h2⟩, h3⟩ := h
-  refine ⟨?_, ?_, ?_, ?_⟩
-  · intro k r hr
-    exact hasKey_false.mp (h1 (k, r) (assoc_mem hr))
-  · intro n hn
-    simp only [XModel.isName, Bool.or_eq_true] at hn
-    rcases hn with hn | hn
-    · obtain ⟨t, ht⟩ := hasKey_true.mp hn
-      have := h2 (n, t) (assoc_mem ht)
-      exact ⟨hasKey_false.mp this.1.1, hasKey_false.mp this.1.2⟩
-    · obtain ⟨rn, hrn⟩ := hasKey_true.mp hn
-      have := h3 (n, rn) (assoc_mem hrn)
-      exact ⟨hasKey_false.mp this.1.1, hasKey_false.mp this.1.2⟩
-  · intro n t ht
-    exact (h2 (n, t) (assoc_mem ht)).2
-  · intro n rn hrn b hb
-    exact (h3 (n, rn) (assoc_mem hrn)).2 b hb
-
-/-! ### `build_code` leaves a formula without defined names as it is -/
+/-! ### defined names of a copy -/
 
 theorem isName_false {x : XModel} {a : Addr} (h : x.isName a = false) :
     assoc a x.st.names = none ∧ assoc a x.rnames = none := by
@@ -141,50 +105,6 @@ theorem isName_false_of_sub {x m : XModel} (hs : Sub x m) {a : Addr} (h : m.isNa
     cases hx : assoc a x.rnames with
     | none => rfl
     | some rn => rw [hs.rname a rn hx] at h2; cases h2
-
-theorem substAddr_id {x : XModel} {a : Addr} (h : x.isName a = false) (b : Bool) :
-    x.substAddr b a = if b then .rng a else .ref a := by
-  obtain ⟨h1, h2⟩ := isName_false h
-  simp only [XModel.substAddr, h1, h2]
-
-mutual
-theorem substFx_id (x : XModel) : ∀ (f : Fx), (∀ t ∈ refsFx f, x.isName t = false) → substFx x f = f
-  | .lit _, _ => by simp [substFx]
-  | .ref a, h => by simp [substFx, substAddr_id (h a (by simp [refsFx]))]
-  | .rng a, h => by simp [substFx, substAddr_id (h a (by simp [refsFx]))]
-  | .app g args, h => by
-    simp only [substFx]; rw [substList_id x args (by simpa [refsFx] using h)]
-  | .iff a b d, h => by
-    simp only [substFx]
-    rw [substFx_id x a (fun t ht => h t (by simp [refsFx, ht])),
-      substFx_id x b (fun t ht => h t (by simp [refsFx, ht])),
-      substFx_id x d (fun t ht => h t (by simp [refsFx, ht]))]
-  | .sc g args, h => by
-    simp only [substFx]; rw [substList_id x args (by simpa [refsFx] using h)]
-  | .fail g args, h => by
-    simp only [substFx]; rw [substList_id x args (by simpa [refsFx] using h)]
-theorem substList_id (x : XModel) : ∀ (l : List Fx), (∀ t ∈ refsList l, x.isName t = false) → substList x l = l
-  | [], _ => by simp [substList]
-  | a :: rest, h => by
-    simp only [substList]
-    rw [substFx_id x a (fun t ht => h t (by simp [refsList, ht])),
-      substList_id x rest (fun t ht => h t (by simp [refsList, ht]))]
-end
-
-theorem substCell_id (x : XModel) (c : Cell) (h : ∀ t ∈ cellTerms c, x.isName t = false) : substCell x c = c := by
-  have hmap : c.formula.map (substFx x) = c.formula := by
-    cases hf : c.formula with
-    | none => rfl
-    | some f =>
-      have : substFx x f = f := by
-        apply substFx_id
-        intro t ht
-        apply h
-        simp only [cellTerms, hf]
-        exact (mem_terms t f).mpr ht
-      simp only [Option.map_some, this]
-  unfold substCell
-  rw [hmap]
 
 /-! ### the views of the built model -/
 
@@ -226,158 +146,68 @@ theorem closed_stDeps (m : MState) (roots : List Addr) : Closed (Closure (stDeps
     simp only [stDeps, hr, List.mem_append]
     exact Or.inr (Or.inr (List.mem_flatten.mpr ⟨row, hrow, hy⟩))
 
-/-! ### the guard of finding D1301 -/
+/-! ### the address a reference token denotes after `build_code` -/
 
-/-- no formula stored at an address of `R` mentions a defined name; no range of `R` has one as a member -/
-def NameFree (m : XModel) (R : Addr → Prop) : Prop :=
-  ∀ a, R a →
-    (∀ c, m.st.cell? a = some c → ∀ t ∈ cellTerms c, m.isName t = false)
-    ∧ (∀ r, m.st.range? a = some r → ∀ y ∈ r.cells.flatten, m.isName y = false)
+def target (m : XModel) (t : Addr) : Addr :=
+  match assoc t m.st.names with
+  | some a => a
+  | none =>
+    match assoc t m.rnames with
+    | some rn => rn.key
+    | none => t
 
-theorem nameFree_of_list {m : XModel} {R : Addr → Prop} {s : List Addr} (h : nameFreeOn m s = true)
-    (hs : ∀ a, R a → a ∈ s) : NameFree m R := by
-  intro a ha
-  simp only [nameFreeOn, List.all_eq_true, Bool.and_eq_true] at h
-  obtain ⟨h1, h2⟩ := h a (hs a ha)
-  constructor
-  · intro c hc t ht
-    rw [hc] at h1
-    simp only [List.all_eq_true, Bool.not_eq_true'] at h1
-    exact h1 t ht
-  · intro r hr y hy
-    rw [hr] at h2
-    simp only [List.all_eq_true, Bool.not_eq_true'] at h2
-    exact h2 y hy
+theorem refs_substAddr (m : XModel) (b : Bool) (t : Addr) : refsFx (m.substAddr b t) = [target m t] := by
+  unfold XModel.substAddr target
+  cases assoc t m.st.names with
+  | some a => simp [refsFx]
+  | none =>
+    cases assoc t m.rnames with
+    | some rn => simp [refsFx]
+    | none => cases b <;> simp [refsFx]
 
-/-! ### the closure is copied -/
+mutual
+theorem refs_substFx (m : XModel) : ∀ f : Fx, refsFx (substFx m f) = (refsFx f).map (target m)
+  | .lit _ => by simp [substFx, refsFx]
+  | .ref a => by simp [substFx, refsFx, refs_substAddr]
+  | .rng a => by simp [substFx, refsFx, refs_substAddr]
+  | .app _ args => by simp only [substFx, refsFx]; exact refs_substList m args
+  | .iff a b d => by
+    simp only [substFx, refsFx, List.map_append, refs_substFx m a, refs_substFx m b, refs_substFx m d]
+  | .sc _ args => by simp only [substFx, refsFx]; exact refs_substList m args
+  | .fail _ args => by simp only [substFx, refsFx]; exact refs_substList m args
+theorem refs_substList (m : XModel) : ∀ l : List Fx, refsList (substList m l) = (refsList l).map (target m)
+  | [] => by simp [substList, refsList]
+  | a :: rest => by
+    simp only [substList, refsList, List.map_append, refs_substFx m a, refs_substList m rest]
+end
 
-theorem closure_handled {m x0 x : XModel} {focus : List Addr} (hwf : WF m)
-    (hfocus : ∀ a ∈ focus, m.st.range? a = none) (hnf : NameFree m (Closure (deps m) focus))
-    (hfd : ∀ a ∈ focus, FocusDone m x0 a) (hle : Le x0 x) (hinv : Inv m x []) :
-    ∀ a, Closure (deps m) focus a → Handled m x a ∧ (m.isName a = true → a ∈ focus) := by
-  intro a ha
-  induction ha with
-  | root h =>
-    rename_i a
-    refine ⟨⟨fun r hr => ?_, fun c hc => hle.cell a c ((hfd a h).cell c hc)⟩, fun _ => h⟩
-    rw [hfocus a h] at hr; cases hr
-  | step hcl hb ih =>
-    rename_i a b
-    obtain ⟨hha, hna⟩ := ih
-    have hnfa := hnf a hcl
-    -- copied cells give "handled" for their own address
-    have copied : ∀ t c, m.st.cell? t = some c → x0.st.cell? t = some c → Handled m x t := by
-      intro t c hc hx
-      refine ⟨fun r hr => ?_, fun c' hc' => ?_⟩
-      · rw [hwf.rangeNotCell t r hr] at hc; cases hc
-      · rw [hc] at hc'; simp only [Option.some.injEq] at hc'; subst hc'
-        exact hle.cell t c hx
-    simp only [deps, List.mem_append] at hb
-    rcases hb with hb | hb | hb
-    · -- through a defined name
-      cases hn : assoc a m.st.names with
-      | some t =>
-        rw [hn] at hb
-        simp only [List.mem_singleton] at hb
-        subst hb
-        have hisn : m.isName a = true := by
-          simp only [XModel.isName, Bool.or_eq_true]; exact Or.inl (hasKey_true.mpr ⟨_, hn⟩)
-        obtain ⟨_, c, hc, hx⟩ := (hfd a (hna hisn)).name (hwf.nameNotCell a hisn).1 _ hn
-        refine ⟨copied _ c hc hx, fun h => ?_⟩
-        rw [hwf.targetNotName a _ hn] at h; cases h
-      | none =>
-        rw [hn] at hb
-        simp only at hb
-        cases hrn : assoc a m.rnames with
-        | none => rw [hrn] at hb; cases hb
-        | some rn =>
-          rw [hrn] at hb
-          simp only at hb
-          have hisn : m.isName a = true := by
-            simp only [XModel.isName, Bool.or_eq_true]; exact Or.inr (hasKey_true.mpr ⟨_, hrn⟩)
-          obtain ⟨_, hall⟩ := (hfd a (hna hisn)).rname (hwf.nameNotCell a hisn).1 hn rn hrn
-          obtain ⟨c, hc, hx⟩ := hall b hb
-          refine ⟨copied b c hc hx, fun h => ?_⟩
-          rw [hwf.memberNotName a rn hrn b hb] at h; cases h
-    · -- through a formula
-      cases hc : m.st.cell? a with
-      | none => rw [hc] at hb; cases hb
-      | some c =>
-        rw [hc] at hb
-        simp only at hb
-        cases hf : c.formula with
-        | none => rw [hf] at hb; cases hb
-        | some f =>
-          rw [hf] at hb
-          simp only at hb
-          have hfree := hnfa.1 c hc
-          have hid : substFx m f = f := by
-            apply substFx_id
-            intro t ht
-            apply hfree
-            simp only [cellTerms, hf]
-            exact (mem_terms t f).mpr ht
-          rw [hid] at hb
-          have hbt : b ∈ cellTerms c := by simp only [cellTerms, hf]; exact hb
-          refine ⟨?_, fun h => ?_⟩
-          · rcases hinv.cell a c (hha.2 c hc) b hbt with h | h
-            · exact h
-            · cases h
-          · rw [hfree b hbt] at h; cases h
-    · -- through a range
-      cases hr : m.st.range? a with
-      | none => rw [hr] at hb; cases hb
-      | some r =>
-        rw [hr] at hb
-        simp only at hb
-        refine ⟨?_, fun h => ?_⟩
-        · rcases hinv.range a r (hha.1 r hr) b hb with h | h
-          · exact h
-          · cases h
-        · rw [hnfa.2 r hr b hb] at h; cases h
+mutual
+theorem substFx_congr (x m : XModel) : ∀ f : Fx, (∀ t ∈ refsFx f, ∀ b, x.substAddr b t = m.substAddr b t) →
+    substFx x f = substFx m f
+  | .lit _, _ => by simp [substFx]
+  | .ref a, h => by simp only [substFx]; exact h a (by simp [refsFx]) false
+  | .rng a, h => by simp only [substFx]; exact h a (by simp [refsFx]) true
+  | .app g args, h => by
+    simp only [substFx]; rw [substList_congr x m args (by simpa [refsFx] using h)]
+  | .iff a b d, h => by
+    simp only [substFx]
+    rw [substFx_congr x m a (fun t ht => h t (by simp [refsFx, ht])),
+      substFx_congr x m b (fun t ht => h t (by simp [refsFx, ht])),
+      substFx_congr x m d (fun t ht => h t (by simp [refsFx, ht]))]
+  | .sc g args, h => by
+    simp only [substFx]; rw [substList_congr x m args (by simpa [refsFx] using h)]
+  | .fail g args, h => by
+    simp only [substFx]; rw [substList_congr x m args (by simpa [refsFx] using h)]
+theorem substList_congr (x m : XModel) : ∀ l : List Fx,
+    (∀ t ∈ refsList l, ∀ b, x.substAddr b t = m.substAddr b t) → substList x l = substList m l
+  | [], _ => by simp [substList]
+  | a :: rest, h => by
+    simp only [substList]
+    rw [substFx_congr x m a (fun t ht => h t (by simp [refsList, ht])),
+      substList_congr x m rest (fun t ht => h t (by simp [refsList, ht]))]
+end
 
-/-! ### the state before the worklist -/
-
-theorem init_inv {m x0 : XModel} (hrc : RangeNotCell m) (hs : Sub x0 m) (hr : x0.st.ranges = []) :
-    Inv m x0 (initTerms x0).reverse where
-  sub := hs
-  range := fun k r hk => by simp [MState.range?, hr, assoc] at hk
-  cell := fun a c hc t ht => by
-    cases hk : hasKey t x0.st.cells with
-    | true =>
-      left
-      obtain ⟨c', hc'⟩ := hasKey_true.mp hk
-      have hm := hs.cell t c' hc'
-      refine ⟨fun r hr' => ?_, fun c'' hc'' => ?_⟩
-      · rw [hrc t r hr'] at hm; cases hm
-      · rw [hm] at hc''; simp only [Option.some.injEq] at hc''; subst hc''; exact hc'
-    | false =>
-      right
-      apply List.mem_reverse.mpr
-      simp only [initTerms, List.mem_flatMap, List.mem_filter]
-      exact ⟨(a, c), assoc_mem hc, ht, by simp [hk]⟩
-
-/-- the shape of a successful extraction -/
-theorem extract_ok_inv {m x : XModel} {focus : List Addr} (hrc : RangeNotCell m)
-    (hx : extract m focus = .ok x) :
-    ∃ x0, Sub x0 m ∧ (∀ a ∈ focus, FocusDone m x0 a) ∧ Le x0 x ∧ Inv m x []
-      ∧ x.st.names = x0.st.names ∧ x.rnames = x0.rnames ∧ x.formulae = [] := by
-  unfold extract at hx
-  cases h0 : focusPhase m XModel.empty focus with
-  | error e => rw [h0] at hx; cases hx
-  | ok x0 =>
-    rw [h0] at hx
-    simp only [Except.ok.injEq] at hx
-    obtain ⟨g, hfd, hr, hf⟩ := focusPhase_ok focus _ _ h0 (sub_empty m)
-    have hi := init_inv hrc g.sub (by rw [hr]; rfl)
-    obtain ⟨i, l, n1, n2, n3⟩ := worklist_inv hrc (workFuel m (initTerms x0).reverse) x0 _ hi
-    have hfin := worklist_finishes m (workFuel m (initTerms x0).reverse) x0 (initTerms x0).reverse
-      (mu_le_workFuel m x0 _)
-    rw [hfin] at i
-    rw [hx] at i l n1 n2 n3
-    exact ⟨x0, g.sub, hfd, l, i, n1, n2, by rw [n3, hf]; rfl⟩
-
-/-! ### agreement of the two built models on the closure -/
+/-! ### closedness of the closure -/
 
 theorem closed_closure (m : XModel) (focus : List Addr) : Closed (Closure (deps m) focus) (buildCode m) where
   resolve := fun a ha => by
@@ -409,41 +239,226 @@ theorem closed_closure (m : XModel) (focus : List Addr) : Closed (Closure (deps 
     simp only [deps, hr, List.mem_append]
     exact Or.inr (Or.inr (List.mem_flatten.mpr ⟨row, hrow, hy⟩))
 
+/-! ### the extraction contains the closure and agrees with the original on it -/
+
+theorem init_inv {m x0 : XModel} (hrc : RangeNotCell m) (hs : Sub x0 m) (hr : x0.st.ranges = []) :
+    Inv m x0 (initTerms x0).reverse where
+  sub := hs
+  range := fun k r hk => by simp [MState.range?, hr, assoc] at hk
+  cell := fun a c hc t ht => by
+    cases hk : hasKey t x0.st.cells with
+    | true =>
+      left
+      obtain ⟨c', hc'⟩ := hasKey_true.mp hk
+      have hm := hs.cell t c' hc'
+      refine ⟨⟨fun r hr' => ?_, fun c'' hc'' => ?_⟩, fun h1 _ => ?_⟩
+      · rw [hrc t r hr'] at hm; cases hm
+      · rw [hm] at hc''; simp only [Option.some.injEq] at hc''; subst hc''; exact hc'
+      · rw [hm] at h1; cases h1
+    | false =>
+      right
+      apply List.mem_reverse.mpr
+      simp only [initTerms, List.mem_flatMap, List.mem_filter]
+      exact ⟨(a, c), assoc_mem hc, ht, by simp [hk]⟩
+
+theorem extract_ok_inv {m x : XModel} {focus : List Addr} (hwf : WF m)
+    (hx : extract m focus = .ok x) :
+    ∃ x0, Sub x0 m ∧ (∀ a ∈ focus, FocusDone m x0 a) ∧ Le x0 x ∧ Inv m x [] ∧ x.formulae = [] := by
+  unfold extract at hx
+  cases h0 : focusPhase m XModel.empty focus with
+  | error e => rw [h0] at hx; cases hx
+  | ok x0 =>
+    rw [h0] at hx
+    simp only [Except.ok.injEq] at hx
+    obtain ⟨g, hfd, hr, hf⟩ := focusPhase_ok focus _ _ h0 (sub_empty m)
+    have hi := init_inv hwf.rangeNotCell g.sub (by rw [hr]; rfl)
+    obtain ⟨i, l, n3⟩ := worklist_inv hwf.rangeNotCell (workFuel m (initTerms x0).reverse) x0 _ hi
+    have hfin := worklist_finishes hwf (workFuel m (initTerms x0).reverse) x0 (initTerms x0).reverse
+      g.sub (mu_le_workFuel m x0 _)
+    rw [hfin] at i
+    rw [hx] at i l n3
+    exact ⟨x0, g.sub, hfd, l, i, by rw [n3, hf]; rfl⟩
+
+/-- every address of the closure is copied; a defined name occurs in the closure only as a focused item -/
+theorem closure_handled {m x0 x : XModel} {focus : List Addr} (hwf : WF m)
+    (hfocus : ∀ a ∈ focus, m.st.range? a = none)
+    (hfd : ∀ a ∈ focus, FocusDone m x0 a) (hle : Le x0 x) (hinv : Inv m x []) :
+    ∀ a, Closure (deps m) focus a → Handled m x a ∧ (m.isName a = true → a ∈ focus) := by
+  intro a ha
+  induction ha with
+  | root h =>
+    rename_i a
+    refine ⟨⟨fun r hr => ?_, fun c hc => hle.cell a c ((hfd a h).cell c hc)⟩, fun _ => h⟩
+    rw [hfocus a h] at hr; cases hr
+  | step hcl hb ih =>
+    rename_i a b
+    obtain ⟨hha, hna⟩ := ih
+    have copied : ∀ t c, m.st.cell? t = some c → x0.st.cell? t = some c → Handled m x t := by
+      intro t c hc hx
+      refine ⟨fun r hr => ?_, fun c' hc' => ?_⟩
+      · rw [hwf.rangeNotCell t r hr] at hc; cases hc
+      · rw [hc] at hc'; simp only [Option.some.injEq] at hc'; subst hc'
+        exact hle.cell t c hx
+    -- a term / member `u` that is done: what it denotes after `build_code` is handled and is not a name
+    have resolved : ∀ u, Done m x [] u ∨ u ∈ ([] : List Addr) →
+        Handled m x (target m u) ∧ (m.isName (target m u) = true → target m u ∈ focus) := by
+      intro u hu
+      rcases hu with hu | hu
+      · unfold target
+        cases hn : assoc u m.st.names with
+        | some a' =>
+          have hisn : m.isName u = true := by
+            simp only [XModel.isName, Bool.or_eq_true]; exact Or.inl (hasKey_true.mpr ⟨_, hn⟩)
+          obtain ⟨h1, h2⟩ := hwf.nameNotCell u hisn
+          obtain ⟨_, q⟩ := (hu.2 h1 h2).1 a' hn
+          simp only
+          refine ⟨q.resolve_right (fun h => by cases h), fun h => ?_⟩
+          rw [hwf.targetNotName u a' hn] at h; cases h
+        | none =>
+          simp only
+          cases hrn : assoc u m.rnames with
+          | some rn =>
+            have hisn : m.isName u = true := by
+              simp only [XModel.isName, Bool.or_eq_true]; exact Or.inr (hasKey_true.mpr ⟨_, hrn⟩)
+            obtain ⟨h1, h2⟩ := hwf.nameNotCell u hisn
+            obtain ⟨_, q⟩ := (hu.2 h1 h2).2 hn rn hrn
+            simp only
+            refine ⟨q.resolve_right (fun h => by cases h), fun h => ?_⟩
+            rw [key_not_name hwf hrn] at h; cases h
+          | none =>
+            simp only
+            refine ⟨hu.1, fun h => ?_⟩
+            simp only [XModel.isName, hasKey, hn, hrn] at h
+            cases h
+      · cases hu
+    simp only [deps, List.mem_append] at hb
+    rcases hb with hb | hb | hb
+    · -- through a focused defined name
+      cases hn : assoc a m.st.names with
+      | some t =>
+        rw [hn] at hb
+        simp only [List.mem_singleton] at hb
+        subst hb
+        have hisn : m.isName a = true := by
+          simp only [XModel.isName, Bool.or_eq_true]; exact Or.inl (hasKey_true.mpr ⟨_, hn⟩)
+        obtain ⟨_, c, hc, hx⟩ := (hfd a (hna hisn)).name (hwf.nameNotCell a hisn).1 _ hn
+        refine ⟨copied _ c hc hx, fun h => ?_⟩
+        rw [hwf.targetNotName a _ hn] at h; cases h
+      | none =>
+        rw [hn] at hb
+        simp only at hb
+        cases hrn : assoc a m.rnames with
+        | none => rw [hrn] at hb; cases hb
+        | some rn =>
+          rw [hrn] at hb
+          simp only at hb
+          have hisn : m.isName a = true := by
+            simp only [XModel.isName, Bool.or_eq_true]; exact Or.inr (hasKey_true.mpr ⟨_, hrn⟩)
+          obtain ⟨_, hall⟩ := (hfd a (hna hisn)).rname (hwf.nameNotCell a hisn).1 hn rn hrn
+          refine ⟨⟨fun r hr => ?_, fun c hc => hle.cell b c (hall b hb c hc)⟩, fun h => ?_⟩
+          · rw [hwf.memberNotRange a rn hrn b hb] at hr; cases hr
+          · rw [hwf.memberNotName a rn hrn b hb] at h; cases h
+    · -- through a formula: `b` is what a term of the source formula denotes
+      cases hc : m.st.cell? a with
+      | none => rw [hc] at hb; cases hb
+      | some c =>
+        rw [hc] at hb
+        simp only at hb
+        cases hf : c.formula with
+        | none => rw [hf] at hb; cases hb
+        | some f =>
+          rw [hf] at hb
+          simp only at hb
+          have hb' := (mem_terms b _).mp hb
+          rw [refs_substFx, List.mem_map] at hb'
+          obtain ⟨u, hu, rfl⟩ := hb'
+          have hut : u ∈ cellTerms c := by simp only [cellTerms, hf]; exact (mem_terms u f).mpr hu
+          exact resolved u (hinv.cell a c (hha.2 c hc) u hut)
+    · -- through a range: members are cell addresses, not names
+      cases hr : m.st.range? a with
+      | none => rw [hr] at hb; cases hb
+      | some r =>
+        rw [hr] at hb
+        simp only at hb
+        refine ⟨?_, fun h => ?_⟩
+        · rcases hinv.range a r (hha.1 r hr) b hb with h | h
+          · exact h.1
+          · cases h
+        · rw [hwf.rangeMemberNotName a r hr b hb] at h; cases h
+
+theorem substAddr_eq_of_names {x m : XModel} {t : Addr} (h1 : assoc t x.st.names = assoc t m.st.names)
+    (h2 : assoc t m.st.names = none → assoc t x.rnames = assoc t m.rnames) (b : Bool) :
+    x.substAddr b t = m.substAddr b t := by
+  unfold XModel.substAddr
+  rw [h1]
+  cases hn : assoc t m.st.names with
+  | some a => rfl
+  | none => simp only [h2 hn]
+
+/-- the extraction agrees with the original on the closure of the focus — no guard -/
 theorem extract_agree {m x : XModel} {focus : List Addr} (hwf : WF m)
-    (hfocus : ∀ a ∈ focus, m.st.range? a = none) (hnf : NameFree m (Closure (deps m) focus))
+    (hfocus : ∀ a ∈ focus, m.st.range? a = none)
     (hx : extract m focus = .ok x) :
     Agree (Closure (deps m) focus) (buildCode m) (buildCode x) := by
-  obtain ⟨x0, hs0, hfd, hle, hinv, hn1, hn2, _⟩ := extract_ok_inv hwf.rangeNotCell hx
-  have hcl := closure_handled hwf hfocus hnf hfd hle hinv
+  obtain ⟨x0, hs0, hfd, hle, hinv, _⟩ := extract_ok_inv hwf hx
+  have hcl := closure_handled hwf hfocus hfd hle hinv
   have hsub := hinv.sub
   refine ⟨fun a ha => ?_, fun a ha => ?_, fun a ha => ?_⟩
-  · -- name resolution
-    simp only [MState.resolve, buildCode_names]
+  · simp only [MState.resolve, buildCode_names]
     cases hn : assoc a m.st.names with
     | some t =>
       have hisn : m.isName a = true := by
         simp only [XModel.isName, Bool.or_eq_true]; exact Or.inl (hasKey_true.mpr ⟨_, hn⟩)
       obtain ⟨h1, _⟩ := (hfd a ((hcl a ha).2 hisn)).name (hwf.nameNotCell a hisn).1 _ hn
-      rw [hn1, h1]
+      rw [hle.name a t h1]
     | none =>
       cases hxn : assoc a x.st.names with
       | none => rfl
       | some t => rw [hsub.name a t hxn] at hn; cases hn
-  · -- cells
-    simp only [buildCode_cell?]
+  · simp only [buildCode_cell?]
     cases hm : m.st.cell? a with
     | none =>
       cases hxc : x.st.cell? a with
       | none => simp [CellAgree]
       | some c => rw [hsub.cell a c hxc] at hm; cases hm
     | some c =>
-      rw [(hcl a ha).1.2 c hm]
-      have hfree := (hnf a ha).1 c hm
+      have hxa := (hcl a ha).1.2 c hm
+      rw [hxa]
       simp only [Option.map_some]
-      rw [substCell_id m c hfree, substCell_id x c (fun t ht => isName_false_of_sub hsub (hfree t ht))]
-      exact ⟨rfl, rfl, fun _ => rfl⟩
-  · -- ranges
-    simp only [buildCode_range?]
+      have hform : c.formula.map (substFx x) = c.formula.map (substFx m) := by
+        cases hf : c.formula with
+        | none => rfl
+        | some f =>
+          simp only [Option.map_some, Option.some.injEq]
+          apply substFx_congr
+          intro t ht b
+          have htc : t ∈ cellTerms c := by simp only [cellTerms, hf]; exact (mem_terms t f).mpr ht
+          have hdone : Done m x [] t := (hinv.cell a c hxa t htc).resolve_right (fun h => by cases h)
+          cases hn : assoc t m.st.names with
+          | some a' =>
+            have hisn : m.isName t = true := by
+              simp only [XModel.isName, Bool.or_eq_true]; exact Or.inl (hasKey_true.mpr ⟨_, hn⟩)
+            obtain ⟨h1, h2⟩ := hwf.nameNotCell t hisn
+            obtain ⟨p, _⟩ := (hdone.2 h1 h2).1 a' hn
+            exact substAddr_eq_of_names (by rw [p, hn]) (fun h => by rw [hn] at h; cases h) b
+          | none =>
+            have hxn : assoc t x.st.names = none := by
+              cases hxn : assoc t x.st.names with
+              | none => rfl
+              | some u => rw [hsub.name t u hxn] at hn; cases hn
+            refine substAddr_eq_of_names (by rw [hxn, hn]) (fun _ => ?_) b
+            cases hrn : assoc t m.rnames with
+            | some rn =>
+              have hisn : m.isName t = true := by
+                simp only [XModel.isName, Bool.or_eq_true]; exact Or.inr (hasKey_true.mpr ⟨_, hrn⟩)
+              obtain ⟨h1, h2⟩ := hwf.nameNotCell t hisn
+              exact ((hdone.2 h1 h2).2 hn rn hrn).1
+            | none =>
+              cases hxr : assoc t x.rnames with
+              | none => rfl
+              | some u => rw [hsub.rname t u hxr] at hrn; cases hrn
+      exact ⟨hform.symm, rfl, fun _ => rfl⟩
+  · simp only [buildCode_range?]
     cases hm : m.st.range? a with
     | none =>
       cases hxr : x.st.range? a with
